@@ -312,7 +312,9 @@ pub struct EvalSpace {
 pub fn named_syms(k: usize) -> Vec<NamedSymbol> {
     // non-adjacent ids; c, d (and the outside variable z) are congruent modulo 32 and 64, so an
     // implementation that keeps variable ids in a machine-word bit set would confuse them
-    [("a", 1usize), ("b", 4), ("c", 38), ("d", 102)].iter().take(k).map(|(n, i)| sym(n, *i)).collect()
+    // the names are deliberately NOT in alphabetical order of their ids: the order of a diagram
+    // is the order of the ids, never of the names
+    [("z", 1usize), ("m", 4), ("a", 38), ("k", 102)].iter().take(k).map(|(n, i)| sym(n, *i)).collect()
 }
 
 impl EvalSpace {
@@ -320,8 +322,10 @@ impl EvalSpace {
         let syms = named_syms(k);
         let sp = Space::<NamedSymbol>::empty(&syms);
         let mut qpool = syms.clone();
-        qpool.push(sym("z", 166));
-        let pf = ParsedFormula { vars: qpool.clone(), free_vars: syms.clone(), raw2free: vec![], bdd: SymbolicBDD::True, env: sp.env.clone(), definitions: Default::default() };
+        qpool.push(sym("b", 166));
+        // built through the public constructor (not a struct literal) so that the harness does
+        // not depend on the exact set of fields; the syntax tree is then replaced per transition
+        let pf = ParsedFormula::new_with_env(sp.env.clone(), &mut std::io::BufReader::new("true".as_bytes()), Some(qpool.clone())).expect("machinery: cannot build a ParsedFormula for 'true'");
         EvalSpace { sp, qpool, pf }
     }
     fn sub(&self, tt: u64) -> SymbolicBDD {
